@@ -21,6 +21,7 @@ func init() {
 			"histories: all sequences of 6 payloads over a 7-payload spread of the corpus, and all sequences over a corpus of about 40 payloads per codec from the reference encoders (every descriptor option, fragment start/middle/end, aggregation, PACI, truncated and malformed ones)",
 			"per-packet formats (VP8, VP9, H265, Opus): return values always, and every exported field / accessor on success, are compared with a fresh receiver given the same payload; nil vs empty slices are not distinguished. Stateful formats (H264Packet, AV1Depacketizer): an instance whose input buffers are overwritten after every call must give the same outputs as a twin fed pristine copies",
 			"runs of 150 payloads on one receiver, walking the corpus with a stride of 1, 2, 3, 5, 7 or 11 from every starting index below 12: the same oracles as the histories at every step",
+			"options: the short strings, the histories of up to 2 payloads and the runs are also explored with SetZeroAllocation(true) on every video depacketizer, and - for H265Packet - with WithDONL switched between the calls on one receiver (a fresh receiver gets the setting of the current call)",
 			"wide structures: VP9 scalability structures for EVERY N_G 0..255 x five P_DIFF-count patterns x N_S {0,7}; STAP-A / H265 aggregation packets (with and without DONL) of {1,2,3,16,255,256,257,300} units; AV1 packets of {1,2,3,4,32,255,256,300} elements in the W=0 form and W=1..3; each at every truncation below 24 bytes, every 7th and the last 6; AV1 OBUs of {16383, 16384, 2^21-1, 2^21, 2^21+5} bytes delivered as the payloader's fragment trains to AV1Depacketizer and AV1Packet+frame.AV1",
 		},
 		Scenarios: []mc.Scenario{
@@ -50,7 +51,51 @@ type c09Recv struct {
 	opus *codecs.OpusPacket
 }
 
+// options that apply to every receiver built while they are set (the reused one, its twin and the
+// fresh ones it is compared with): zero-allocation mode of the video depacketizers, and for
+// H265Packet the DONL setting to use for the next call (switched between calls on one receiver)
+var (
+	c09ZeroAlloc bool
+	c09DONLNow   *bool
+)
+
+func c09SetOptions(c *mc.Ctx, kind int, allowed bool) (toggleDONL bool) {
+	c09ZeroAlloc, c09DONLNow = false, nil
+	if !allowed {
+		return false
+	}
+	switch c.Pick(3) {
+	case 1:
+		c09ZeroAlloc = true
+	case 2:
+		if kind != 2 && kind != 3 {
+			c.Prune()
+		}
+		return true
+	}
+	return false
+}
+
 func c09New(kind int) *c09Recv {
+	r := c09NewPlain(kind)
+	if c09ZeroAlloc {
+		switch {
+		case r.h264 != nil:
+			r.h264.SetZeroAllocation(true)
+		case r.h265 != nil:
+			r.h265.SetZeroAllocation(true)
+		case r.vp8 != nil:
+			r.vp8.SetZeroAllocation(true)
+		case r.vp9 != nil:
+			r.vp9.SetZeroAllocation(true)
+		case r.av1d != nil:
+			r.av1d.SetZeroAllocation(true)
+		}
+	}
+	return r
+}
+
+func c09NewPlain(kind int) *c09Recv {
 	r := &c09Recv{kind: kind}
 	switch kind {
 	case 0:
@@ -122,6 +167,9 @@ func (r *c09Recv) step(cur, other []byte) (out []byte, err error, meta string) {
 		r.h264.IsPartitionTail(false, cur)
 		r.h264.IsDetectedFinalPacketInSequence(true)
 	case 2, 3:
+		if c09DONLNow != nil {
+			r.h265.WithDONL(*c09DONLNow)
+		}
 		r.h265.IsPartitionHead(other)
 		r.h265.IsPartitionTail(true, other)
 		out, err = r.h265.Unmarshal(cur)
@@ -182,6 +230,8 @@ var c09Sym40 = []byte{0x00, 0x01, 0x02, 0x03, 0x05, 0x07, 0x08, 0x0A, 0x0F, 0x10
 
 func c09Short(c *mc.Ctx) {
 	kind := c.Pick(c09Kinds)
+	c09SetOptions(c, kind, kind != 9 && c.Bool())
+	defer c09SetOptions(c, kind, false)
 	b0 := c.Pick(258) // 0 nil, 1 empty, 2.. first byte
 	if b0 < 2 {
 		var in []byte
@@ -383,12 +433,14 @@ func c09Histories(c *mc.Ctx) {
 		depth = 6
 		corpus = c08SubCorpusOf(corpus, 7)
 	}
+	toggle := c09SetOptions(c, kind, depth <= 2 && kind != 9)
+	defer c09SetOptions(c, kind, false)
 	idx := make([]int, depth)
 	for i := range idx {
 		idx[i] = c.Pick(len(corpus))
 	}
 	desc := func() string {
-		s := c09KindNames[kind] + " history"
+		s := c09KindNames[kind] + fmt.Sprintf(" (zero-allocation %v, DONL switched between calls %v) history", c09ZeroAlloc, toggle)
 		for _, k := range idx {
 			s += " " + hx(corpus[k])
 		}
@@ -408,6 +460,10 @@ func c09Histories(c *mc.Ctx) {
 		var other []byte
 		if i > 0 {
 			other = corpus[idx[i-1]]
+		}
+		if toggle {
+			v := (i+kind)%2 == 0
+			c09DONLNow = &v
 		}
 		bufA, intact := guard(in)
 		out, err, meta := a.step(bufA, other)
@@ -589,6 +645,8 @@ func c09Runs(c *mc.Ctx) {
 	corpus := c09Corpus(kind)
 	stride := mc.From(c, []int{1, 2, 3, 5, 7, 11})
 	first := c.Pick(12)
+	toggle := c09SetOptions(c, kind, kind != 9)
+	defer c09SetOptions(c, kind, false)
 	a := c09New(kind)
 	var b *c09Recv
 	if c09Stateful(kind) {
@@ -600,6 +658,10 @@ func c09Runs(c *mc.Ctx) {
 		var other []byte
 		if i > 0 {
 			other = corpus[(first+(i-1)*stride)%len(corpus)]
+		}
+		if toggle {
+			v := (i/3)%2 == 0
+			c09DONLNow = &v
 		}
 		bufA, intact := guard(in)
 		out, err, meta := a.step(bufA, other)
